@@ -2,6 +2,7 @@
 # usage: tools/seed_run.sh ID CHECK [CHECK...] -- apply /verif/seeded/ID/patch.diff to /repo, run the checks (quick), undo.
 ID=$1; shift
 git -C /repo apply /verif/seeded/$ID/patch.diff || { echo "cannot apply"; exit 3; }
+TH=$(cd /verif && python3 -c "import verif; print(verif.tree_hash())")
 for C in "$@"; do
   cp /verif/evidence/$C.json /tmp/ev-$C.json 2>/dev/null
   S=$(date +%s); OUT=$(cd /verif && python3 verif.py run $C --tier ${TIER:-quick} 2>&1); R=$?; E=$(date +%s)
@@ -9,4 +10,5 @@ for C in "$@"; do
   cp /tmp/ev-$C.json /verif/evidence/$C.json 2>/dev/null
 done
 git -C /repo checkout -- .
-TH=$(ls -dt /verif/build/rel-* | head -1)
+# remove the build directories of the seeded tree only (content hash computed while the patch was applied)
+[ -n "$TH" ] && rm -rf /verif/build/*-$TH
